@@ -2,6 +2,10 @@ package mc
 
 import (
 	"fmt"
+	"os"
+	"os/exec"
+	"path/filepath"
+	"strings"
 	"testing"
 
 	"github.com/buildbarn/bb-remote-execution/pkg/verifsync"
@@ -68,4 +72,45 @@ func TestPruningAgreesWithStateless(t *testing.T) {
 			t.Fatalf("replay %d did not reproduce", i)
 		}
 	}
+}
+
+// A recursive read lock on an RWMutex deadlocks in Go iff a writer arrives
+// between the two RLock calls (writer preference). The engine must find it.
+func TestRecursiveRLockDeadlockFound(t *testing.T) {
+	if testing.Short() {
+		t.Skip()
+	}
+	sc := &Scenario{
+		Name: "rrlock", Props: []string{"T"}, Liveness: []string{"T"},
+		Build: func(x *X) {
+			var mu verifsync.RWMutex
+			x.Go("R", func() {
+				mu.RLock()
+				mu.RLock()
+				mu.RUnlock()
+				mu.RUnlock()
+			})
+			x.Go("W", func() {
+				mu.Lock()
+				mu.Unlock()
+			})
+		},
+	}
+	if os.Getenv("MC_SELFTEST_CHILD") == "" {
+		// the worker process exits on a deadlock; run it as a child
+		cmd := exec.Command(os.Args[0], "-test.run", "^TestRecursiveRLockDeadlockFound$")
+		out := filepath.Join(t.TempDir(), "res.json")
+		cmd.Env = append(os.Environ(), "MC_SELFTEST_CHILD=1", "MC_OUT="+out)
+		if b, err := cmd.CombinedOutput(); err != nil {
+			t.Fatalf("child: %v\n%s", err, b)
+		}
+		b, _ := os.ReadFile(out)
+		if !strings.Contains(string(b), "T/deadlock/") {
+			t.Fatalf("deadlock not reported: %s", b)
+		}
+		return
+	}
+	activeProp = "T"
+	res := Explore(t, sc, Options{Prop: "T", Bound: -1}, writeResult)
+	writeResult(res)
 }
